@@ -28,14 +28,15 @@ type c16Frame struct {
 }
 
 type balanceChecker struct {
-	d        *drive.Driver
-	frames   []c16Frame
-	stmtLen  []int
-	bad      string
-	steps    int
-	maxDepth int
-	kinds    map[string]bool
-	labelSet []map[string]bool // names of labels declared per open function body (harness-side)
+	d                 *drive.Driver
+	frames            []c16Frame
+	stmtLen           []int
+	bad               string
+	steps             int
+	maxDepth          int
+	kinds             map[string]bool
+	labelSet          []map[string]bool // names of labels declared per open function body (harness-side)
+	nstmt, constStmts int
 }
 
 var c16Openers = map[string]string{
@@ -136,6 +137,19 @@ func (b *balanceChecker) stmtStart(s ast.Stmt) {
 	if ls, ok := s.(*ast.LabeledStmt); ok && len(b.labelSet) > 0 {
 		b.labelSet[len(b.labelSet)-1][ls.Label.Name] = true
 	}
+	// Every third statement is preceded by an expression statement whose value is a constant: the
+	// builder skips it (nothing is emitted) and, like any completed statement, it must leave the
+	// operand stack where it was.
+	b.nstmt++
+	if b.nstmt%3 == 0 {
+		cb := b.d.CB
+		n0 := cb.InternalStack().Len()
+		cb.Val(7).EndStmt()
+		b.constStmts++
+		if n1 := cb.InternalStack().Len(); n1 != n0 {
+			b.fail("a skipped constant expression statement (Val(7).EndStmt()) changed the operand stack from %d to %d", n0, n1)
+		}
+	}
 	b.stmtLen = append(b.stmtLen, b.d.CB.InternalStack().Len())
 }
 
@@ -156,8 +170,17 @@ func c16Eval(c *progCase) (sig, msg string, bc *balanceChecker, pr *progRun) {
 		bc = &balanceChecker{d: d, kinds: map[string]bool{}}
 		d.Before, d.After, d.OnStmtStart, d.OnStmt = bc.before, bc.after, bc.stmtStart, bc.stmtEnd
 	}})
-	if bc == nil || pr.Failure != "" || !pr.Src.OK() || !pr.Res.Accepted() {
-		return "", "", bc, pr // only error-free, well-nested histories are quantified over
+	if bc == nil || pr.Failure != "" || !pr.Src.OK() {
+		return "", "", bc, pr
+	}
+	if !pr.Res.Accepted() {
+		// Only error-free, well-nested histories are quantified over - but an imbalance observed on the
+		// error-free prefix of a history (nothing had been reported yet; the build was aborted by a
+		// later panic) is an observation about an error-free history.
+		if bc.bad != "" && len(pr.Res.Errs) == 0 && pr.Res.Panic != nil {
+			return "unbalanced|" + normMsg(bc.bad), bc.bad + "\n(the build was then aborted: " + pr.Res.ErrText() + ")", bc, pr
+		}
+		return "", "", bc, pr
 	}
 	if bc.bad == "" {
 		cb := pr.Res.Pkg.CB()
@@ -212,7 +235,7 @@ func TestC16(t *testing.T) {
 			r.Class("generator_unsound")
 			return
 		}
-		if !pr.Res.Accepted() {
+		if !pr.Res.Accepted() && sig == "" {
 			r.Class("not-accepted(outside-quantifier)")
 			return
 		}
@@ -231,6 +254,8 @@ func TestC16(t *testing.T) {
 		if bc.maxDepth >= 3 && len(bc.kinds) >= 2 {
 			r.Nontrivial(p.Src)
 		}
-		r.Sample(func() any { return map[string]any{"xgo": xgo, "max_depth": bc.maxDepth, "operations": bc.steps, "source": p.Src} })
+		r.Sample(func() any {
+			return map[string]any{"xgo": xgo, "max_depth": bc.maxDepth, "operations": bc.steps, "source": p.Src}
+		})
 	})
 }
